@@ -277,6 +277,9 @@ Proof.
   + inversion H; subst. inv_plain c s t G S IV Hpc.
 Qed.
 
+Lemma Inv_timed c s v : Inv c s -> Inv c (set_timed s v).
+Proof. intros [I1 I2 I3 I4 I5 I6 I7 I8 I9 I10]. constructor; unfold pcof in *; sp; assumption. Qed.
+
 Lemma Inv_acquire c s t w rm wait :
   GQ s -> SQ s -> Inv c s ->
   (pcof s t = GStart KTry rm /\ w = false /\ wait = false \/ (exists e, pcof s t = GAcq e rm) /\ w = true) ->
@@ -302,8 +305,10 @@ Proof.
     * apply Inv_acquire; try assumption. left. repeat split. exact Hpc.
     * inv_plain c s t G S IV Hpc.
   + (* GAcq *)
-    destruct e; inversion H; subst;
-      [apply Inv_acquire; try assumption; right; split; [eexists; exact Hpc|reflexivity]..|inv_plain c s t G S IV Hpc].
+    destruct e; [| |destruct (rt c)]; inversion H; subst;
+      [apply Inv_acquire; try assumption; right; split; [eexists; exact Hpc|reflexivity]..| |inv_plain c s t G S IV Hpc].
+    apply Inv_acquire; [apply GQ_same with s|apply SQ_same with s|apply Inv_timed|]; try assumption; try reflexivity.
+    right. split; [eexists; change (pcof (set_timed s (t :: timed s)) t) with (pcof s t); exact Hpc|reflexivity].
   + (* GWait *)
     destruct (closed s) eqn:Ec.
     * inversion H; subst. destruct a; inv_plain c s t G S IV Hpc.
@@ -361,11 +366,22 @@ Proof.
   - inversion H; subst. destruct a; [inv_ssem c s t G S IV Hpc|inv_plain c s t G S IV Hpc].
 Qed.
 
+Lemma Inv_fire c s t s' : GQ s -> SQ s -> Inv c s -> fire_task c s t = Some s' -> Inv c s'.
+Proof.
+  intros G S IV H. unfold fire_task in H. destruct (negb (rt c && mem_nat t (timed s))); [discriminate|].
+  destruct (pcof s t) as [|k rm|e rm|rm a|w rm|w rm o|r|o|o r|o r|o| | | | |o b|o a|o| | | | | | |sz|r] eqn:Hpc;
+    try discriminate H.
+  destruct (closed s || a) eqn:Eca.
+  - eapply Inv_step_task; eassumption.
+  - apply orb_false_elim in Eca. destruct Eca as [_ ->]. inversion H; subst. inv_plain c s t G S IV Hpc.
+Qed.
+
 Theorem Inv_step c s l s' : GQ s -> SQ s -> Inv c s -> step c s l = Some s' -> Inv c s'.
 Proof.
-  intros G S IV H. destruct l as [t o|t|t|n]; cbn [step] in H.
+  intros G S IV H. destruct l as [t o|t|t|t|n]; cbn [step] in H.
   - eapply Inv_start; eassumption.
   - eapply Inv_step_task; eassumption.
   - eapply Inv_cancel; eassumption.
+  - eapply Inv_fire; eassumption.
   - inversion H; subst. exact IV.
 Qed.
